@@ -8,37 +8,34 @@
    yet; at the end every committed log has been published.  So: after the outermost commit; nothing for failed,
    dry-run, rolled-back and commit-failed writes; exactly one event per committed write.
 
-   FULL STATEMENT (false of the code because of idempotent replays, see C31_refuted_replay):
-     forall init ops, check (trace_of init ops) = VOk.
-   The model follows the code AFTER the repair of KF-C31-first-write-event-before-commit (LockLedger propagates hasTx). *)
+   The model follows the code AFTER the repairs of KF-C31-first-write-event-before-commit (LockLedger propagates hasTx)
+   and KF-C31-replay-republishes (no event for an idempotent replay); the behaviour before them survives as the [pf]
+   variant of the model in the HISTORICAL part at the end, which is not tied to the code. *)
 From Coq Require Import List ZArith Bool.
 From LV Require Import Ledger.Events Ledger.EventsProofs.
 Import ListNotations.
 Open Scope Z_scope.
 
-(* S-31b (still open, known finding KF-C31-replay-republishes): an idempotent replay (forgeLog answers from the stored log,
-   idempotencyHit = true) publishes the event of that log a second time: ControllerWithEvents does not look at idempotencyHit. *)
-Theorem C31_refuted_replay :
-  exists ops,
-    trace_of false ops = [SqlBegin; LogAppended 1; SqlCommitOk; Publish 1; SqlBegin; SqlRollback; Publish 1] /\
-    check (trace_of false ops) = VNoWrite 1.
-Proof. exists [OWrite wok; OWrite {| w_dry := false; w_out := WHit 1 |}]. vm_compute. split; reflexivity. Qed.
-Print Assumptions C31_refuted_replay.
-
-(* Strongest true statement: on ANY ledger (still initializing or already in use), every history of single writes (any
-   outcome, dry-run or not), atomic and non-atomic bulks (continueOnFailure or not) and COMMIT faults at any position,
-   without idempotent replays, satisfies the judgement.  No bound on the history or the bulks.  (Before the repair of
-   KF-C31-first-write-event-before-commit this held for in-use ledgers only: see the historical part below.) *)
-Theorem C31_partial : forall init ops,
-  forallb eop_no_hit ops = true -> check (trace_of init ops) = VOk.
+(* FULL STATEMENT.  On ANY ledger (still initializing or already in use), EVERY history of single writes (any outcome:
+   success, business failure, failing statement, dry run, idempotent replay, context cancelled at a statement), atomic and
+   non-atomic bulks (continueOnFailure or not; prelude of an atomic bulk on an initializing ledger succeeding, failing or
+   cancelled), COMMIT failures and context cancellations before any COMMIT satisfies the judgement.  No bound on the
+   history or the bulks, no side condition. *)
+Theorem C31_exactly_after_commit : forall init ops, check (trace_of init ops) = VOk.
 Proof. exact trace_check_ok. Qed.
-Print Assumptions C31_partial.
+Print Assumptions C31_exactly_after_commit.
 
 (* the same from any position of the log sequence (the form the tie uses) *)
-Theorem C31_partial_from : forall init n ops,
-  forallb eop_no_hit ops = true -> check (trace_from init n ops) = VOk.
+Theorem C31_exactly_after_commit_from : forall init n ops, check (trace_from init n ops) = VOk.
 Proof. exact trace_from_check_ok. Qed.
-Print Assumptions C31_partial_from.
+Print Assumptions C31_exactly_after_commit_from.
+
+(* an idempotent replay (forgeLog answers from the stored log, idempotencyHit = true, nothing is written) publishes
+   nothing: in any model state (ledger state, log sequence, armed fault switches), dry or not *)
+Theorem C31_replay_silent : forall s dry id s' tr,
+  eop_run false s (OWrite {| w_dry := dry; w_out := WHit id |}) = (s', tr) -> existsb is_publish tr = false.
+Proof. exact replay_silent. Qed.
+Print Assumptions C31_replay_silent.
 
 (* what a passing trace means: each Publish is preceded by  LogAppended id ... COMMIT ok  with no transaction boundary in between *)
 Theorem C31_after_commit : forall tr, check tr = VOk ->
@@ -61,18 +58,34 @@ Proof. vm_compute. split; reflexivity. Qed.
 
 (* a context cancelled before COMMIT (database/sql has rolled back, Commit returns ErrTxDone) or while a statement runs:
    the transaction is rolled back, nothing is committed, nothing is published, the rest of the request does nothing *)
+(* a write and its replay, alone and inside an atomic bulk: one event *)
+Example C31_example_replay :
+  trace_of false [OWrite wok; OWrite {| w_dry := false; w_out := WHit 1 |}] =
+    [SqlBegin; LogAppended 1; SqlCommitOk; Publish 1; SqlBegin; SqlRollback] /\
+  trace_of false [OBulk true false BPOk [wok; {| w_dry := false; w_out := WHit 1 |}; wok]] =
+    [SqlBegin; LogAppended 1; LogAppended 2; SqlCommitOk; Publish 1; Publish 2] /\
+  trace_of true [OWrite {| w_dry := false; w_out := WHit 7 |}] = [SqlBegin; SqlCommitOk].
+Proof. vm_compute. repeat split. Qed.
+
+(* atomic bulk on an initializing ledger: the prelude of the facade's BeginTX fails or is cancelled => nothing else happens *)
+Example C31_example_bulk_prelude :
+  trace_of true [OBulk true true BPFail [wok; wok]] = [SqlBegin; SqlRollback] /\
+  trace_of true [OBulk true false BPCancel [wok; wok]] = [SqlBegin; SqlRollback] /\
+  trace_of true [OBulk true false BPOk [wok; wok]] = [SqlBegin; LogAppended 1; LogAppended 2; SqlCommitOk; Publish 1; Publish 2] /\
+  trace_of false [OBulk true false BPFail [wok]] = [SqlBegin; LogAppended 1; SqlCommitOk; Publish 1].
+Proof. vm_compute. repeat split. Qed.
+
 Example C31_example_cancel :
   trace_of true [OCancelCommit 0; OWrite wok] = [SqlBegin; LogAppended 1; SqlRollback] /\
-  trace_of false [OCancelCommit 0; OBulk true false [wok; wok]] = [SqlBegin; LogAppended 1; LogAppended 2; SqlRollback] /\
-  trace_of false [OBulk false true [wok; {| w_dry := false; w_out := WCancel true |}; wok]] =
+  trace_of false [OCancelCommit 0; OBulk true false BPOk [wok; wok]] = [SqlBegin; LogAppended 1; LogAppended 2; SqlRollback] /\
+  trace_of false [OBulk false true BPOk [wok; {| w_dry := false; w_out := WCancel true |}; wok]] =
     [SqlBegin; LogAppended 1; SqlCommitOk; Publish 1; SqlBegin; LogAppended 2; SqlRollback] /\
-  check (trace_of false [OBulk false true [wok; {| w_dry := false; w_out := WCancel true |}; wok]]) = VOk.
+  check (trace_of false [OBulk false true BPOk [wok; {| w_dry := false; w_out := WCancel true |}; wok]]) = VOk.
 Proof. vm_compute. repeat split. Qed.
 
 Example C31_example :
-  let ops := [OWrite wok; OWrite {| w_dry := true; w_out := WOk |}; OBulk true false [wok; wok];
-              OWrite {| w_dry := false; w_out := WFail |}; OFailCommit 1; OBulk false true [wok; {| w_dry := false; w_out := WFail |}; wok; wok]] in
-  forallb eop_no_hit ops = true /\
+  let ops := [OWrite wok; OWrite {| w_dry := true; w_out := WOk |}; OBulk true false BPOk [wok; wok];
+              OWrite {| w_dry := false; w_out := WFail |}; OFailCommit 1; OBulk false true BPOk [wok; {| w_dry := false; w_out := WFail |}; wok; wok]] in
   trace_of false ops =
     [SqlBegin; LogAppended 1; SqlCommitOk; Publish 1;
      SqlBegin; LogAppended 2; SqlRollback;
@@ -83,16 +96,24 @@ Example C31_example :
   check (trace_of false ops) = VOk.
 Proof. vm_compute. repeat split. Qed.
 
-(* ---------- HISTORICAL: the model variant before the repair of KF-C31-first-write-event-before-commit ----------
-   [trace_pre_fix] (LockLedger returning hasTx = false, suspect S-31a) is no longer tied to the code; the statements record
-   what the defect was and that the pre-fix code was correct on in-use ledgers only. *)
+(* ---------- HISTORICAL: the model variant before the repairs of KF-C31-first-write-event-before-commit and
+   KF-C31-replay-republishes ----------
+   [trace_pre_fix] (LockLedger returning hasTx = false, suspect S-31a; idempotencyHit ignored, suspect S-31b) is no longer
+   tied to the code; the statements record what the defects were and that the pre-fix code was correct on in-use ledgers
+   without replays only. *)
 Example C31_pre_fix_first_write :
   trace_pre_fix true [OWrite wok] = [SqlBegin; LogAppended 1; Publish 1; SqlCommitOk] /\
   check (trace_pre_fix true [OWrite wok]) = VBeforeCommit 1 /\
   trace_pre_fix true [OFailCommit 0; OWrite wok] = [SqlBegin; LogAppended 1; Publish 1; SqlCommitFail].
 Proof. vm_compute. repeat split. Qed.
 
-Example C31_pre_fix_in_use_only : forall ops, forallb eop_no_hit ops = true -> check (trace_pre_fix false ops) = VOk.
+Example C31_pre_fix_replay :
+  let ops := [OWrite wok; OWrite {| w_dry := false; w_out := WHit 1 |}] in
+  trace_pre_fix false ops = [SqlBegin; LogAppended 1; SqlCommitOk; Publish 1; SqlBegin; SqlRollback; Publish 1] /\
+  check (trace_pre_fix false ops) = VNoWrite 1.
+Proof. vm_compute. split; reflexivity. Qed.
+
+Example C31_pre_fix_in_use_no_replay_only : forall ops, forallb (eop_hit_ok true) ops = true -> check (trace_pre_fix false ops) = VOk.
 Proof. exact trace_pre_fix_check_ok. Qed.
 
 Example C31_pre_fix_scenarios : forall c o, check (scenario_trace_pre_fix c o) = scenario_expected_pre_fix c o.
